@@ -9,6 +9,7 @@ import (
 	"go/types"
 	"os"
 	"sort"
+	"strconv"
 	"strings"
 
 	"golang.org/x/tools/go/types/typeutil"
@@ -60,10 +61,64 @@ func (w *Walker) loop(s ast.Stmt, in []*State) []*State {
 					}
 				}
 			}
+			// a range over a short list written out in place (or returned as such by an accessor): one pass per element
+			if rng != nil && table != nil && w.listLit(table, rng) && !hasLoopBranch(body) {
+				cur := []*State{st}
+				for i, el := range table.Args {
+					for _, c := range cur {
+						if id, ok := rng.Value.(*ast.Ident); ok && id.Name != "_" {
+							w.bindIdent(id, el, c)
+						}
+						if id, ok := rng.Key.(*ast.Ident); ok && id.Name != "_" {
+							w.bindIdent(id, constTerm(strconv.Itoa(i)), c)
+						}
+					}
+					cur = w.stmts(body.List, cur)
+				}
+				out = append(out, cur...)
+				continue
+			}
 			out = append(out, w.loopOne(s, rng, fr, body, table, st, keyID)...)
 		}
 	}
 	return out
+}
+
+// listLit: the ranged value is a literal array / slice of at most eight elements whose terms are at hand.
+func (w *Walker) listLit(t *Term, rng *ast.RangeStmt) bool {
+	if t.K != KLocal || !strings.HasPrefix(t.Name, "lit") || len(t.Fields) != 0 || len(t.Args) == 0 || len(t.Args) > 8 || t.ST != nil {
+		return false
+	}
+	switch w.info.TypeOf(rng.X).Underlying().(type) {
+	case *types.Array, *types.Slice:
+		return true
+	}
+	return false
+}
+
+func (w *Walker) bindIdent(id *ast.Ident, t *Term, st *State) {
+	obj := w.info.Defs[id]
+	if obj == nil {
+		obj = w.info.Uses[id]
+	}
+	if v, ok := obj.(*types.Var); ok {
+		st.Env[v] = t
+	}
+}
+
+// hasLoopBranch: the body leaves an iteration early (break / continue / goto / return) somewhere.
+func hasLoopBranch(body *ast.BlockStmt) bool {
+	found := false
+	ast.Inspect(body, func(n ast.Node) bool {
+		switch n.(type) {
+		case *ast.BranchStmt, *ast.ReturnStmt:
+			found = true
+		case *ast.FuncLit:
+			return false
+		}
+		return !found
+	})
+	return found
 }
 
 // assignedLocals lists local variables (declared outside the loop body) assigned in it.
@@ -1187,7 +1242,9 @@ func (w *Walker) inlineCallMode(fn *FuncInfo, recv *Term, args []*Term, st *Stat
 	if pure {
 		// single-expression functions are handled by pureResult (cheaper); predicates by cond()
 		if len(fn.Decl.Body.List) == 1 {
-			return nil, false
+			if _, isRet := fn.Decl.Body.List[0].(*ast.ReturnStmt); isRet {
+				return nil, false
+			}
 		}
 		if stmtCount(fn.Decl.Body) > 30 || w.A.noPureInline[fn] {
 			return nil, false
@@ -1296,6 +1353,9 @@ func (w *Walker) inlineCallMode(fn *FuncInfo, recv *Term, args []*Term, st *Stat
 		useful := false
 		if sig := fn.Obj.Type().(*types.Signature); sig.Results().Len() == 1 && namedName(sig.Results().At(0).Type()) == "Duration" {
 			useful = true
+		}
+		if sig := fn.Obj.Type().(*types.Signature); sig.Results().Len() >= 2 {
+			useful = true // several results decided together (a lookup and its "found"): how they hang together is the point
 		}
 		for _, o := range out {
 			for _, t := range o.ts {
